@@ -189,3 +189,8 @@ class HistParametricModel(ParametricModelBaseMixin, HistContainer):
 
     def fill(self, entries):
         raise TypeError("Parametric model of histogram cannot be filled!")
+
+    def rebin(self, new_bin_edges):
+        super(HistParametricModel, self).rebin(new_bin_edges)
+        # the bin contents were reset: recalculate the model values next time they are requested
+        self._pm_calculation_stale = True
